@@ -47,7 +47,7 @@ ViewOpts ==
 Inputs ==
     {"empty", "1byte", "5bytes", "shape_only", "magic_only", "magic_v1_nolen", "text_no_values", "text_shape_empty",
      "text_shape_zero", "text_shape_overflow", "text_shape_negative", "text_huge_value", "text_nan_values", "npy_shape_overflow",
-     "npy_shape_zero", "npy_header_len_huge", "npy_v9", "npy_dict_garbage", "npy_shape_nonint", "binary_garbage", "utf8_bom_text"}
+     "npy_shape_zero", "npy_header_len_huge", "text_shape_zero_overflow", "npy_shape_zero_overflow", "npy_v9", "npy_dict_garbage", "npy_shape_nonint", "binary_garbage", "utf8_bom_text"}
 
 SampleLists ==
     {"dup_same_label", "dup_diff_label", "dup_unnamed_named", "unknown", "empty_arg", "empty_file", "only_equals", "trailing_comma",
@@ -72,6 +72,11 @@ Scenarios ==
     \cup [kind : {"view"}, o : [opt : {"project-shape"}, val : {"551", "2", "1100", "1101"}], shape : {<<1101>>}]
     \cup [kind : {"view"}, o : [opt : {"project-individuals"}, val : {"275", "100"}], shape : {<<1101>>, <<301, 3>>}]
     \cup [kind : {"stat"}, stat : {"pi", "theta", "d_tajima", "d_fu_li", "s", "sum"}, shape : {<<1101>>, <<172>>}]
+    \* many axes: npy dict exactly on a 64-byte boundary (21 axes), and a header longer than 65535 bytes (22000 axes)
+    \cup [kind : {"view"}, o : [opt : {"none", "mask-monomorphic"}, val : {""}],
+           shape : {[i \in 1..21 |-> IF i = 1 THEN 10 ELSE 1], [i \in 1..20 |-> IF i = 1 THEN 0 ELSE IF i <= 5 THEN 10 ELSE 1],
+                    [i \in 1..22000 |-> 1]}]
+    \cup [kind : {"view"}, o : [opt : {"project-individuals"}, val : {"9223372036854775807", "9223372036854775808", "4611686018427387904"}], shape : {<<3>>}]
 
 WellFormed(s) == s.kind = "mutate" => s.field \in FieldsOf(s.format)
 
